@@ -60,6 +60,15 @@ void dtw_dba_{{ suffix }}(
     idx_t path_length;
 
     idx_t wps_length = dtw_settings_wps_length(t, {{max_length}}, settings);
+    {%- if "ptrs" in suffix %}
+    // The compact warping paths buffer is widest for the series whose length differs most from t
+    for (r_idx=0; r_idx<nb_ptrs; r_idx++) {
+        idx_t cur_length = dtw_settings_wps_length(t, lengths[r_idx], settings);
+        if (cur_length > wps_length) {
+            wps_length = cur_length;
+        }
+    }
+    {%- endif %}
     wps = (seq_t *)malloc(wps_length * sizeof(seq_t));
 
     for (pi=0; pi<t; pi++) {
